@@ -68,7 +68,7 @@ def describe(v):
         return " (no-failing-input-found)"
     return " (witness)"
 strengthened.update({
- "C04-I":"missed by C04 at first (flagged by C02 only): mktp families ep-push / ep-disc (double push transposed with a slider move lining up behind the origin square; section 9.10)",
+ "C04-I":"missed by C04 at first (flagged by C02 only): mktp families ep-push / ep-disc (double push transposed with a slider move lining up behind the origin square) and the rule-level judge Spec/TpJudge.v (section 9.10)",
 })
 
 out = ["| seed | files changed | flagged by (quick tier, machinery as committed) | also run, silent | missed at first → what was strengthened |", "|---|---|---|---|---|"]
